@@ -28,6 +28,7 @@
 #include <vector>
 #include <cstring>
 #include <algorithm>
+#include <cerrno>
 
 namespace ebusd {
 
@@ -924,10 +925,27 @@ result_t ValueListDataField::writeSymbols(size_t offset, istringstream* input,
   const char* str = inputStr.c_str();
   char* strEnd = nullptr;  // fall back to raw value in input
   unsigned int value;
-  value = (unsigned int)strtoul(str, &strEnd, 10);
-  if (strEnd == nullptr || strEnd == str || (*strEnd != 0 && *strEnd != '.')) {
+  const char* first = str;
+  while (isspace(*first)) {
+    first++;
+  }
+  errno = 0;
+  unsigned long parsed = strtoul(str, &strEnd, 10);
+  if (strEnd == nullptr || strEnd == str) {
     return RESULT_ERR_INVALID_NUM;  // invalid value
   }
+  if (*strEnd == '.') {  // tolerate (and truncate) fraction digits only
+    do {
+      strEnd++;
+    } while (*strEnd >= '0' && *strEnd <= '9');
+  }
+  if (*strEnd != 0) {
+    return RESULT_ERR_INVALID_NUM;  // invalid value
+  }
+  if (errno == ERANGE || parsed > MAX_VALUE || (*first == '-' && parsed != 0)) {
+    return RESULT_ERR_NOTFOUND;  // beyond any possible value assignment
+  }
+  value = (unsigned int)parsed;
   if (m_values.find(value) != m_values.end()) {
     return numType->writeRawValue(value, offset, m_length, output, usedLength);
   }
